@@ -1028,7 +1028,7 @@ pub fn builtin_text(t: &mut Tape, spec: &GSpec, term_of_core: &[usize], input: &
 pub fn gen_cfg(t: &mut Tape) -> (GSpec, Vec<&'static str>) {
     let mut tags = vec![];
     // the template family is drawn first: the LR(1)-not-LALR(1) family wants six terminals
-    let tpl = t.weighted(&[120, 40, 18, 14, 14, 14, 16, 20]);
+    let tpl = t.weighted(&[110, 60, 18, 14, 14, 14, 16, 20]);
     // "clean" variant: the random part shrinks to a start symbol that only
     // refers to the template, so acceptance depends on the template alone
     let clean = tpl != 0 && t.chance(128);
@@ -1121,7 +1121,7 @@ pub fn gen_cfg(t: &mut Tape) -> (GSpec, Vec<&'static str>) {
     };
     let mut root: Option<usize> = None;
     match tpl {
-        1 if nterms >= 6 && t.chance(128) => {
+        1 if nterms >= 6 && t.chance(80) => {
             // a state that has to be split by context, reached directly and through another
             // state M that lies on its lanes and reduces TA = m:
             //   S = X d | Y c | a P d | a R c | a TA z1 | b P c | b R d | b TA z2
@@ -1173,7 +1173,8 @@ pub fn gen_cfg(t: &mut Tape) -> (GSpec, Vec<&'static str>) {
                     _ => vec![vec![c.clone(), f.clone()], vec![c.clone()]],
                 }
             };
-            let shape = t.below(5);
+            // the right-recursive shape with shared prefixes (2) puts a second undecided state on the lanes
+            let shape = t.weighted(&[2, 1, 4, 2, 1]);
             let an = add(&mut spec, "TA", body(an_idx, shape));
             let bn = add(&mut spec, "TB", body(bn_idx, shape));
             let s = add(
